@@ -33,15 +33,27 @@ def NM():
     return NonnegMean
 
 
+def _flag(cfg):
+    """The random_order flag as the caller's pipeline holds it: a Python bool, or the same truth value as a numpy bool
+    (a cell of an array / DataFrame, the result of np.all) or as 0 / 1."""
+    import numpy as _np
+    ro = bool(cfg.get("random_order", True))
+    rep = cfg.get("flag_repr", "bool")
+    return ro if rep == "bool" else (_np.bool_(ro) if rep == "numpy" else int(ro))
+
+
 def build(cfg):
     """The real NonnegMean object for a configuration dict."""
     cls = NM()
     N = math.inf if cfg["N"] in ("inf", None) or cfg["N"] == math.inf else int(cfg["N"])
+    if math.isfinite(N) and cfg.get("N_repr"):
+        import numpy as _np
+        N = _np.int64(N) if cfg["N_repr"] == "numpy_int64" else _np.int32(N)
     kw = dict(cfg.get("kw", {}))
     obj = cls(test=getattr(cls, cfg["test"]),
               estim=getattr(cls, cfg["estim"]) if cfg.get("estim") else None,
               bet=getattr(cls, cfg["bet"]) if cfg.get("bet") else None,
-              u=cfg.get("u_built", cfg["u"]), N=N, t=cfg["t"], random_order=cfg.get("random_order", True), **kw)
+              u=cfg.get("u_built", cfg["u"]), N=N, t=cfg["t"], random_order=_flag(cfg), **kw)
     if "u_built" in cfg:
         # the audit workflow constructs the test with one bound and installs the real one later (asn.test.u = u):
         # the object must behave as if it had been built with the bound it now holds
@@ -182,6 +194,10 @@ def gen_cfg(rng, combo=None, finite=None, n_max=12, allow_not_random=True, u=Non
         cfg["int_dtype"] = rng.choice((True, True, "uint8", "int8", "int32", "bool"))
     if rng.random() < 0.15:
         cfg["reused"] = True
+    if rng.random() < 0.2:
+        cfg["flag_repr"] = rng.choice(("numpy", "int"))
+    if N != "inf" and test == "wald_sprt" and rng.random() < 0.3:
+        cfg["N_repr"] = rng.choice(("numpy_int64", "numpy_int32"))   # a finite N that is an integer but not a Python int
     return cfg
 
 
